@@ -38,16 +38,19 @@ def describe(tier):
 # user snippets with several top-level elements: attributes written on the alias go to every top-level element
 MULTI_DEFS = [[('x', '.p'), ('y', '.q')], [('x', ''), ('y', '')], [('x', '[t=1]'), ('y', '.q[t=2]')], [('x', '.p'), ('y', '.q'), ('z', '#i')],
               [('x', '[class]'), ('y', '[class]')], [('x', '[class]'), ('y', '')], [('x', '[t]'), ('y', '[t class=""]')]]
-MULTI_EXTRAS = ['.z', '[t=3]', '.z.w', '#j.z', '[u=4].z']
+MULTI_EXTRAS = ['.z', '[t=3]', '.z.w', '#j.z', '[u=4].z', '{t}', '/', '.z{t}', '[t=3]/']
 
 
 def check_multi(defn, extra, rev, repeat):
     table = {'ka': '+'.join(n + a for n, a in defn)}
     alias = 'ka' + extra + ('*2' if repeat else '')
+    # text and the self-closing mark follow the attributes of the element they are applied to
+    m_ = re.match(r'^((?:[.#][\w-]+|\[[^\]]*\])*)(\{[^}]*\})?(/)?$', extra)
+    eattr, etail = m_.group(1), (m_.group(2) or '') + (m_.group(3) or '')
     if rev:
-        body = '+'.join(n + extra + a for n, a in defn)
+        body = '+'.join(n + eattr + a + etail for n, a in defn)
     else:
-        body = '+'.join(n + a + extra for n, a in defn)
+        body = '+'.join(n + a + eattr + etail for n, a in defn)
     definition = '(%s)*2' % body if repeat else body
     cfg = {'snippets': table, 'options': {'output.format': False, 'output.reverseAttributes': rev}}
     r1 = ex(alias, cfg)
